@@ -165,3 +165,39 @@ func VerifC10TreeFaults() {
 	}
 	rt.Reach("done")
 }
+
+// VerifC10TreeDelete: deleting a tree whose storage refuses the delete reports the error, leaves the live
+// tree usable and agreeing with storage, and the same Delete succeeds when tried again.
+func VerifC10TreeDelete() {
+	b := newVBuilder()
+	ids := rt.Atoms(4, 2)
+	b.nextIds = ids[1:]
+	ctx := context.Background()
+	a, err := vNewReplica(ids[0], b, "w")
+	rt.Assert(err == nil, "open")
+	rt.Assert(vC10Add(a, ctx, false) == nil, "setup-add")
+	stored := len(a.store.changes)
+	a.store.calls = 0
+	a.store.failAt = -1
+	if rt.Bool() {
+		a.store.failAt = 0
+	}
+	err = a.ot.Delete()
+	faulted := a.store.faulted
+	a.store.failAt = -1
+	a.store.faulted = false
+	if !faulted {
+		rt.Assert(err == nil && len(a.store.changes) == 0, "delete-removes-the-data")
+		rt.Reach("deleted")
+		return
+	}
+	rt.Reach("faulted")
+	rt.Assert(err != nil, "fault-is-reported")
+	rt.Assert(len(a.store.changes) == stored, "failed-delete-leaves-storage")
+	// the live tree agrees with storage: it is not deleted, so it still answers
+	_, herr := a.ot.SnapshotPath()
+	rt.Assert(herr != ErrDeleted, "live-tree-not-marked-deleted-while-storage-holds-it")
+	// the same input again
+	rt.Assert(a.ot.Delete() == nil, "retry-after-fault-succeeds")
+	rt.Assert(len(a.store.changes) == 0, "retry-removes-the-data")
+}
